@@ -1,72 +1,153 @@
 import Gonuts.Lemmas.Spend
 /-!
-  C13 — HTLC locks (NUT-14).  STATE: the code as it is today (defects F6 and F8 present).
+  C13 — HTLC locks (NUT-14).  Model: `Model.Spend` (the repaired code: F6 "always remove the matched key",
+  F8 "AddWitnessHTLCToOutputs hex-decodes B_"); specification: `Spec.Spendable.spendableHTLC`.
+  For ALL inputs: unbounded lists, any `valid`, any `sha256hex`, any `now`.
 -/
 namespace Gonuts.Props.C13
 open Gonuts.Model.Spend Gonuts.Spec.Spendable Gonuts.Lemmas.Spend
 
-/-! ## concrete witnesses: key 1 ("K1"); `sign k m = 100*k + m`; a signature verifies exactly for its own (key, digest) -/
-def wSign : Key → Msg → Sig := fun k m => 100 * k + m
-def wValid : Sig → Key → Msg → Bool := fun s k m => s == 100 * k + m
-def wEnv : Env where
-  valid := wValid
-  parseKey := fun s => if s = "K1" then some 1 else none
-  sha256hex := fun b => if b = [0xab] then "HASHHASHHASHHASHHASHHASHHASHHASHHASHHASHHASHHASHHASHHASHHASHHASH" else ""
-  now := 100
-def wHash : String := "HASHHASHHASHHASHHASHHASHHASHHASHHASHHASHHASHHASHHASHHASHHASHHASH"
-/-- SIG_ALL HTLC, one listed key, threshold 1 -/
-def wSecret : Secret := { kind := .htlc, data := wHash, tags := [["sigflag", "SIG_ALL"], ["n_sigs", "1"], ["pubkeys", "K1"]] }
-def wProof : Proof := { secret := some wSecret, msg := 7, witness := { jsonOk := false, signatures := [], preimage := "" } }
-/-- an output whose decoded-`B_` digest has id 20 and whose hex-text digest has id 21 -/
-def wOutput : Output := { msgDecoded := some 20, msgText := 21, witness := { jsonOk := false, signatures := [], preimage := "" } }
-/-- threshold 2 with ONE listed key -/
-def wSecret2 : Secret := { kind := .htlc, data := wHash, tags := [["n_sigs", "2"], ["pubkeys", "K1"]] }
-def wValid2 : Sig → Key → Msg → Bool := fun s k _ => (s == 11 || s == 12) && k == 1
-def wEnv2 : Env := { wEnv with valid := wValid2 }
-def wProof2 : Proof := { secret := some wSecret2, msg := 7, witness := { jsonOk := true, signatures := [11, 12], preimage := "ab" } }
+/-! ## concrete values: keys 1 ("K1"), 2 ("K2"); `sign k m = 100*k + m`; 912 = a second signature string of key 1 on digest 7;
+    the preimage "ab" (one byte 0xab) hashes to the 64-character lock value `xHash`. -/
+def xSign : Key → Msg → Sig := fun k m => 100 * k + m
+def xValid : Sig → Key → Msg → Bool := fun (s k m : Nat) => s == 100 * k + m || (s == 912 && k == 1 && m == 7)
+def xHash : String := "HASHHASHHASHHASHHASHHASHHASHHASHHASHHASHHASHHASHHASHHASHHASHHASH"
+def xEnv : Env where
+  valid := xValid
+  parseKey := fun s => if s = "K1" then some 1 else if s = "K2" then some 2 else none
+  sha256hex := fun b => if b = [0xab] then xHash else "e3b0"
+  now := 1000
+theorem xSign_valid (k : Key) (m : Msg) : xEnv.valid (xSign k m) k m = true := by simp [xEnv, xValid, xSign]
+theorem xOpens : Opens xEnv "ab" xHash := ⟨by decide, [0xab], by decide, by decide⟩
+theorem xValid_unique_aux (s k k' m : Nat) (h1 : xValid s k m = true) (h2 : xValid s k' m = true) : k = k' := by
+  simp [xValid] at h1 h2
+  rcases h1 with h1 | ⟨⟨h1, h1'⟩, h1''⟩ <;> rcases h2 with h2 | ⟨⟨h2, h2'⟩, h2''⟩ <;> omega
+theorem xValid_unique (m : Msg) (keys : List Key) : UniqueSigner xValid m keys :=
+  fun s k k' _ _ h1 h2 => xValid_unique_aux s k k' m h1 h2
+/-- hash lock, signers K1 K2, threshold 2, future locktime, refund key K2 -/
+def xSecret : Secret := { kind := .htlc, data := xHash, tags := [["n_sigs", "2"], ["pubkeys", "K1", "K2"], ["locktime", "5000"], ["refund", "K2"]] }
+def xProof : Proof := { secret := some xSecret, msg := 7, witness := { jsonOk := true, signatures := [xSign 2 7, xSign 1 7], preimage := "AB" } }
 
-/-- what the two helpers write for the witness inputs/outputs -/
-def wIn : List Proof := match addWitnessHTLC wEnv wSign [wProof] wSecret "ab" 1 with | .ok ps => ps | .err _ => []
-def wOut : List Output := match addWitnessHTLCToOutputs wSign "ab" 1 [wOutput] with | .ok os => os | .err _ => []
+/-! ## VerifyHTLCProof = the declarative NUT-14 statement -/
+
+/-- SOUND (no hypothesis): before the locktime an accepted proof carries a preimage whose SHA-256 (of the hex-decoded bytes,
+    lower-case hex) equals the 64-character lock value and, if `n_sigs>0`, `n_sigs` signatures by distinct positions of
+    `pubkeys` with no repeated string; after the locktime only the refund rule applies; malformed tags are rejected. -/
+theorem htlc_sound (env : Env) (p : Proof) (s : Secret) (h : verifyHTLC env p s = .ok ()) :
+    spendableHTLC env s p.msg p.witness := verifyHTLC_sound env p s h
+
+/-- IFF, when a signature verifies under at most one listed key. -/
+theorem htlc_iff_spec (env : Env) (p : Proof) (s : Secret) (hu : UniqueSigner env.valid p.msg (condOf env s.tags).pubkeys) :
+    verifyHTLC env p s = .ok () ↔ spendableHTLC env s p.msg p.witness :=
+  ⟨verifyHTLC_sound env p s, verifyHTLC_complete env p s hu⟩
+
+example : verifyHTLC xEnv xProof xSecret = .ok () ∧ decideHTLC xEnv xSecret 7 xProof.witness = true := by decide
+
+/-- the rejections the property names: a non-hex preimage, a wrong preimage, a lock value that is not 64 characters -/
+theorem htlc_rejects_bad_preimage (env : Env) (p : Proof) (s : Secret)
+    (hne : ¬ Expired env (condOf env s.tags))
+    (hbad : hexDecode p.witness.preimage = none ∨ s.data.length ≠ 64 ∨
+      ∀ b, hexDecode p.witness.preimage = some b → env.sha256hex b ≠ s.data) :
+    verifyHTLC env p s ≠ .ok () := by
+  intro h
+  obtain ⟨_, hsp⟩ := verifyHTLC_sound env p s h
+  simp only [hne, if_false] at hsp
+  obtain ⟨⟨h64, b, hb, hh⟩, _⟩ := hsp
+  rcases hbad with h1 | h1 | h1
+  · rw [hb] at h1; cases h1
+  · exact h1 h64
+  · exact h1 b hb hh
+
+example : verifyHTLC xEnv { xProof with witness := { xProof.witness with preimage := "zz" } } xSecret = .err .invalidPreimage
+    ∧ verifyHTLC xEnv { xProof with witness := { xProof.witness with preimage := "" } } xSecret = .err .invalidPreimage
+    ∧ verifyHTLC xEnv xProof { xSecret with data := "HASH" } = .err .invalidHash := by decide
+
+/-- after the locktime only the refund rule applies: the preimage neither helps nor is needed -/
+theorem htlc_after_locktime (env : Env) (p : Proof) (s : Secret) (hx : Expired env (condOf env s.tags))
+    (h : verifyHTLC env p s = .ok ()) :
+    (condOf env s.tags).refund = [] ∨ ∃ sg ∈ p.witness.signatures, ∃ k ∈ (condOf env s.tags).refund, env.valid sg k p.msg = true := by
+  obtain ⟨_, hsp⟩ := verifyHTLC_sound env p s h
+  simp only [hx, if_true] at hsp
+  rcases hsp with h | h
+  · exact Or.inl h
+  · exact Or.inr (signed_one_iff.1 h)
+
+example : verifyHTLC { xEnv with now := 6000 } { xProof with witness := { jsonOk := true, signatures := [xSign 2 7], preimage := "" } } xSecret = .ok ()
+    ∧ verifyHTLC { xEnv with now := 6000 } xProof { xSecret with tags := [["locktime", "5000"], ["refund", "K1"]] } = .ok ()
+    ∧ verifyHTLC { xEnv with now := 6000 } { xProof with witness := { jsonOk := true, signatures := [xSign 2 7], preimage := "ab" } }
+        { xSecret with tags := [["locktime", "5000"], ["refund", "K1"]] } = .err .notEnoughSignatures := by decide
+
+theorem spec_evaluator_htlc (env : Env) (s : Secret) (m : Msg) (w : Witness) :
+    decideHTLC env s m w = true ↔ spendableHTLC env s m w := decideHTLC_iff env s m w
+
+/-! ## SIG_ALL: every output must carry the preimage and the signatures -/
+
+theorem htlc_sigall_outputs (env : Env) (proofs : List Proof) (outs : List Output) (p0 : Proof) (rest : List Proof) (s0 : Secret)
+    (hp : proofs = p0 :: rest) (hs0 : p0.secret = some s0) (hkind : s0.kind = .htlc)
+    (h : ∃ p ∈ proofs, CarriesSigAll p) (hs : swapSpendCheck env proofs outs = .ok ()) :
+    ∃ keys n, (∀ q ∈ proofs, SameCondition env keys n q) ∧
+      ∀ o ∈ outs, o.witness.jsonOk = true ∧ Opens env o.witness.preimage s0.data ∧
+        ∃ m, o.msgDecoded = some m ∧ o.witness.signatures.Nodup ∧ Signed env.valid m o.witness.signatures keys n := by
+  have hsa : proofsSigAll proofs = true := (proofsSigAll_iff proofs).2 h
+  unfold swapSpendCheck at hs
+  cases hv : verifyProofs env proofs with
+  | err e => simp [hv] at hs
+  | ok u =>
+    simp only [hv, hsa, if_true] at hs
+    obtain ⟨s0', keys, n, ⟨p0', rest', hp', hs0'⟩, hall, houts⟩ := verifyBlindedMessages_sound hs
+    rw [hp] at hp'
+    cases hp'
+    rw [hs0] at hs0'
+    cases hs0'
+    refine ⟨keys, n, hall, fun o ho => ?_⟩
+    obtain ⟨_, hj, hopen, hm⟩ := houts o ho
+    exact ⟨hj, hopen hkind, hm⟩
+
+def xSigAllSecret : Secret := { kind := .htlc, data := xHash, tags := [["sigflag", "SIG_ALL"], ["n_sigs", "1"], ["pubkeys", "K1"]] }
+def xBare (m : Msg) : Proof := { secret := some xSigAllSecret, msg := m, witness := { jsonOk := false, signatures := [], preimage := "" } }
+def xOut (m : Msg) : Output := { msgDecoded := some m, msgText := m + 1, witness := { jsonOk := false, signatures := [], preimage := "" } }
+example : swapSpendCheck xEnv [{ xBare 7 with witness := { jsonOk := true, signatures := [xSign 1 7], preimage := "ab" } }]
+    [{ xOut 20 with witness := { jsonOk := true, signatures := [xSign 1 20], preimage := "ab" } }] = .ok () := by decide
+example : swapSpendCheck xEnv [{ xBare 7 with witness := { jsonOk := true, signatures := [xSign 1 7], preimage := "ab" } }]
+    [{ xOut 20 with witness := { jsonOk := true, signatures := [xSign 1 20], preimage := "" } }] = .err .invalidPreimage := by decide
 
 /-! ## the helpers -/
 
-/-- FULL: what AddWitnessHTLC writes on the inputs and AddWitnessHTLCToOutputs on the outputs is accepted by the mint
-    (SIG_ALL HTLC inputs sharing one secret `s` with threshold ≤ 1, a listed signing key, the right preimage). -/
-def htlc_helpers_accepted_full : Prop :=
-  ∀ (env : Env) (sign : Key → Msg → Sig) (s : Secret) (proofs : List Proof) (outs : List Output) (pre : String) (k : Key),
-    (∀ k m, env.valid (sign k m) k m = true) →
-    s.kind = .htlc → isSigAll s = true → proofs ≠ [] → (∀ p ∈ proofs, p.secret = some s) →
-    (∃ t, parseTags env s.tags = .ok t ∧ t.nSigs ≤ 1 ∧ k ∈ t.pubkeys ∧ ¬ expired env t) → Opens env pre s.data →
-    ∀ proofs' outs', addWitnessHTLC env sign proofs s pre k = .ok proofs' → addWitnessHTLCToOutputs sign pre k outs = .ok outs' →
-      verifyProofs env proofs' = .ok () ∧ verifyBlindedMessages env proofs' outs' = .ok ()
+/-- htlc_helpers_accepted (inputs): whenever AddWitnessHTLC itself succeeds (threshold ≤ 1, and the signing key listed when a
+    signature is needed), the preimage is right and the lock has not expired into a refund-only state, every input it writes
+    passes VerifyHTLCProof. -/
+theorem htlc_helpers_accepted_inputs (env : Env) (sign : Key → Msg → Sig) (hsign : ∀ k m, env.valid (sign k m) k m = true)
+    (k : Key) (s : Secret) (pre : String) (hkind : s.kind = .htlc) (proofs proofs' : List Proof)
+    (hsec : ∀ p ∈ proofs, p.secret = some s) (hopen : Opens env pre s.data)
+    (hx : ∀ t, parseTags env s.tags = .ok t → expired env t = true → t.refund = [])
+    (h : addWitnessHTLC env sign proofs s pre k = .ok proofs') : verifyProofs env proofs' = .ok () :=
+  addWitnessHTLC_accepted env sign hsign k s pre hkind proofs proofs' hsec hopen hx h
 
-/-- F8: the helper signs the digest of the hex text (id 21); the mint checks the digest of the decoded bytes (id 20). -/
-theorem htlc_helpers_accepted_full_false : ¬ htlc_helpers_accepted_full := by
-  intro h
-  have hopen : Opens wEnv "ab" wSecret.data := ⟨by decide, [0xab], by decide, by decide⟩
-  have hv : ∀ k m, wEnv.valid (wSign k m) k m = true := by intro k m; simp [wEnv, wValid, wSign]
-  have := h wEnv wSign wSecret [wProof] [wOutput] "ab" 1 hv rfl (by decide) (by simp) (by simp [wProof])
-    ⟨_, (by decide : parseTags wEnv wSecret.tags = .ok { sigflag := "SIG_ALL", nSigs := 1, pubkeys := [1] }), by decide, by decide, by decide⟩
-    hopen wIn wOut (by decide) (by decide)
-  revert this
-  decide
+/-- htlc_helpers_accepted (outputs): with SIG_ALL HTLC inputs sharing one condition of threshold 1, the output witnesses written
+    by AddWitnessHTLCToOutputs with a listed key and the right preimage pass verifyBlindedMessages — whenever the helper itself
+    succeeds (every `B_` is hex). -/
+theorem htlc_helpers_accepted_outputs (env : Env) (sign : Key → Msg → Sig) (hsign : ∀ k m, env.valid (sign k m) k m = true)
+    (k : Key) (proofs : List Proof) (s0 : Secret) (keys : List Key) (pre : String)
+    (hshared : SharedCondition env proofs s0 keys 1) (hkind : s0.kind = .htlc) (hk : k ∈ keys) (hopen : Opens env pre s0.data)
+    (outs outs' : List Output) (h : addWitnessHTLCToOutputs sign pre k outs = .ok outs') :
+    verifyBlindedMessages env proofs outs' = .ok () :=
+  addWitnessHTLCToOutputs_accepted env sign hsign k proofs s0 keys pre hshared hkind hk hopen outs outs' h
 
-/-- PARTIAL: the INPUT witnesses of AddWitnessHTLC are accepted (witnessed here; the general theorem follows the repair). -/
-example : addWitnessHTLC wEnv wSign [wProof] wSecret "ab" 1 = .ok wIn ∧ verifyProofs wEnv wIn = .ok () := by decide
+/-- non-vacuity and the regression of F8: the whole honest flow through both helpers is accepted by the swap check
+    (on the unrepaired code the output witness signed the hex-text digest `m+1` and was refused). -/
+def xIn : List Proof := match addWitnessHTLC xEnv xSign [xBare 7, xBare 8] xSigAllSecret "ab" 1 with | .ok ps => ps | .err _ => []
+def xOuts : List Output := match addWitnessHTLCToOutputs xSign "ab" 1 [xOut 20, xOut 22] with | .ok os => os | .err _ => []
+example : addWitnessHTLC xEnv xSign [xBare 7, xBare 8] xSigAllSecret "ab" 1 = .ok xIn ∧
+    addWitnessHTLCToOutputs xSign "ab" 1 [xOut 20, xOut 22] = .ok xOuts ∧ swapSpendCheck xEnv xIn xOuts = .ok () := by decide
+/-- the helper now fails on a `B_` that is not hex, as AddSignatureToOutputs does -/
+example : addWitnessHTLCToOutputs xSign "ab" 1 [{ xOut 20 with msgDecoded := none }] = .err .badB_ := by decide
+/-- the helper refuses what it cannot satisfy -/
+example : addWitnessHTLC xEnv xSign [xBare 7] xSecret "ab" 1 = .err .helperTooManySigs ∧
+    addWitnessHTLC xEnv xSign [xBare 7] xSigAllSecret "ab" 2 = .err .helperCannotSign := by decide
 
-/-! ## VerifyHTLCProof against the declarative NUT-14 statement -/
-
-def htlc_sound_full : Prop :=
-  ∀ (env : Env) (p : Proof) (s : Secret), verifyHTLC env p s = .ok () → spendableHTLC env s p.msg p.witness
-
-/-- F6 in the HTLC path: two signatures of the only listed key meet `n_sigs = 2`. -/
-theorem htlc_sound_full_false : ¬ htlc_sound_full := by
-  intro h
-  have h1 := h wEnv2 wProof2 wSecret2 (by decide)
-  have h2 : decideHTLC wEnv2 wSecret2 wProof2.msg wProof2.witness = false := by decide
-  rw [← decideHTLC_iff] at h1
-  rw [h1] at h2
-  cases h2
+/-! ## regression of F6 in the HTLC path: threshold 2 with ONE listed key, met by two signatures of that key. Was accepted. -/
+def f6Secret : Secret := { kind := .htlc, data := xHash, tags := [["n_sigs", "2"], ["pubkeys", "K1"]] }
+example : verifyHTLC xEnv { secret := some f6Secret, msg := 7, witness := { jsonOk := true, signatures := [xSign 1 7, 912], preimage := "ab" } } f6Secret
+    = .err .notEnoughSignatures := by decide
 
 end Gonuts.Props.C13
